@@ -304,6 +304,20 @@ fn c15_lookup() -> R {
         let wrong = e.extract_object_for_predicate::<u64>(query.clone());
         ensure!(wrong.is_err(), "typed extraction as another type returned a value", "");
     } else { ensure!(r.is_err(), "typed extraction without a single match returned a value", ""); }
+    op("try_object_for_predicate / try_optional_object_for_predicate / try_objects_for_predicate");
+    {
+        let r = e.try_object_for_predicate::<String>(query.clone());
+        let x = e.extract_object_for_predicate::<String>(query.clone());
+        if let (Ok(a1), Ok(a2)) = (&r, &x) { ensure!(a1 == a2, "try_object_for_predicate and extract_object_for_predicate return different values", ""); }
+        if want.len() != 1 { ensure!(r.is_err(), "try_object_for_predicate without a single match returned a value", ""); }
+        let ro = e.try_optional_object_for_predicate::<String>(query.clone());
+        if want.is_empty() { ensure!(matches!(ro, Ok(None)), "try_optional_object_for_predicate without a match must be Ok(None)", ""); }
+        if want.len() > 1 { ensure!(ro.is_err(), "try_optional_object_for_predicate with several matches must be an error", ""); }
+        let rs = e.try_objects_for_predicate::<String>(query.clone());
+        if let Ok(v) = &rs { ensure!(v.len() == want.len(), "try_objects_for_predicate returns another number of objects", "{} vs {}", v.len(), want.len()); }
+        let ws = e.try_objects_for_predicate::<u64>(query.clone());
+        if !want.is_empty() { ensure!(ws.is_err(), "try_objects_for_predicate as another type returned values", ""); }
+    }
     op("extract_objects_for_predicate / extract_optional_object_for_predicate / with_default");
     let all_clear = (0..nas).filter(|i| preds[*i] == Some(q)).all(|i| !matches!(&specs[i], Spec::Assert(_, o) if o.is_obscured()));
     let r = e.extract_objects_for_predicate::<String>(query.clone());
